@@ -81,6 +81,29 @@ Wipes(p, d) == /\ \E k \in SlotKeys : p[k] # 0
                /\ \A k \in SlotKeys : Apply(p, d)[k] = 0
 NoWipeWhileFlushing == (act'.op = "Update" /\ act'.res \in {"ok", "dup", "dupdisk"} /\ Wipes(act'.p, act'.d))
                           => ~(frozen.present /\ ~frozen.done)
+(* ---- scripted reader schedules (Depth < 0): grow a tree, open a reader, look the key up,  *)
+(* run exactly one cap (with the flush completions it needs) while the reader is parked       *)
+(* between lookup and layer read, then let it read.  Every finished schedule is printed.      *)
+ScenDepth   == 0 - 1        \* value of Depth that selects the scripted mode (cfg files have no negative numbers)
+LastTip     == IF \E i \in 1..Len(hist) : hist[i].act.op = "ReadTip"
+               THEN CHOOSE i \in 1..Len(hist) : hist[i].act.op = "ReadTip" /\ \A j \in (i + 1)..Len(hist) : hist[j].act.op # "ReadTip"
+               ELSE 0
+CappedSince == \E j \in (LastTip + 1)..Len(hist) : hist[j].act.op = "CapEnd"
+Script ==
+  LET rd == CHOOSE r \in Readers : TRUE
+      pc == readers[rd].pc
+  IN IF pc = "idle" THEN /\ act'.op \in {"Update", "OpenReader"}
+                         /\ act'.op = "Update" => act'.res = "ok"
+                         /\ act'.op = "OpenReader" => Len(objs) >= 2
+     ELSE IF pc = "open" THEN act'.op = "ReadTip"
+     ELSE IF pc = "tip" THEN (IF ~CapIdle THEN act'.op \in {"CapStep", "CapEnd", "FlushDone"}
+                              ELSE IF CappedSince THEN act'.op \in {"ReadVal", "FlushDone"}
+                              ELSE act'.op = "CapBegin")
+     ELSE FALSE
+EmitDone == IF Depth < 0 /\ act.op = "ReadVal" /\ CapIdle
+            THEN PrintT(<<"MBT", ToJson([keys |-> Key, init |-> [async |-> hist[1].st.async], steps |-> hist])>>)
+            ELSE TRUE
+
 (* reader-focused sampling: once a reader is parked between its two steps only cap, flush   *)
 (* and the reader itself move, so that the second step is reached within the behaviour       *)
 ReaderFocus == (\E rd \in Readers : readers[rd].pc = "tip") => act'.op \notin {"Update", "CapNoop", "OpenReader"}
